@@ -305,6 +305,9 @@ def gen_train_plan(rng: random.Random, *, tier: str = 'quick',
                 'bandwidth': rng.choice([1e6, 1e9]),
                 'sched_seed': rng.randrange(1 << 30),
                 'mem_ckpt': restarts > 0 and rng.random() < 0.5,
+                # torchrun-style launcher variables: unset, or this many
+                # ranks per node (LOCAL_RANK = RANK % local_size)
+                'local_size': rng.choice([None, None, 1, 2, 4]),
             },
         }
         r = rng.random()
@@ -315,4 +318,14 @@ def gen_train_plan(rng: random.Random, *, tier: str = 'quick',
         if low_precision and rng.random() < low_precision:
             plan['factor_dtype'] = rng.choice(['bfloat16', 'float32'])
             plan['inv_dtype'] = rng.choice(['bfloat16', 'float32'])
+        elif low_precision and world <= 2 and mspec['input'][
+                'kind'] == 'dense' and rng.random() < low_precision:
+            # float16 factors: many rows of large (but representable)
+            # activations, so that sum(x^2) leaves the float16 range while
+            # mean(x^2) stays well inside it
+            plan['factor_dtype'] = 'float16'
+            plan['inv_dtype'] = rng.choice([None, 'float32'])
+            plan['loss_scaling'] = False
+            mspec['input_gain'] = rng.choice([1.0, 30.0, 40.0])
+            mspec['min_batch'], mspec['max_batch'] = 24, 32
         return plan
